@@ -122,8 +122,13 @@ func checkPair(c *ukit.Spec, cs schema.Type, pr pair, tier string, res *ux.Resul
 		}
 		return true
 	}}
+	e.Deadline = ux.BatchDeadline()
 	e.All()
 	res.Evaluations += execs
+	if e.Stats.Capped {
+		res.Capped = true // no verdict is drawn from a search that was cut short
+		return
+	}
 	res.Nontrivial++
 	if len(verdicts) > 1 {
 		res.Add(fmt.Sprintf("compatibility verdict of %s depends on map iteration order", c.Kind), fmt.Sprintf("%s\n%v", desc, verdicts), rp)
@@ -202,6 +207,10 @@ func main() {
 			}
 			ps := producers(c, tier)
 			for i := from; i < len(ps); i++ {
+				if ux.Stop() {
+					res.Capped = true
+					break
+				}
 				ux.Progress(i)
 				checkPair(c, cs, ps[i], tier, &res)
 			}
